@@ -309,7 +309,11 @@ func TestC20EndToEnd(t *testing.T) {
 			col.Eval()
 			st, ok := s0[want]
 			if !ok {
-				t.Fatalf("token t%03d : %s ; — Go reads the literal as %d (%U) but the generated lexer has no transition on that rune in its start state", k, l, want, want)
+				m := fmt.Sprintf("token t%03d : %s ; — Go reads the literal as %d (%U) but the generated lexer has no transition on that rune in its start state", k, l, want, want)
+				rec := &ev.Recorder{Dir: os.Getenv("VERIF_REPLAY_OUT"), Prop: "C20", Engine: "inproc"}
+				rec.Record([]byte(fmt.Sprintf(`{"lit":%q}`, l)), m)
+				rec.Flush(col)
+				t.Fatalf("%s", m)
 			}
 			name := fmt.Sprintf("t%03d", k)
 			if st >= len(accepts) || accepts[st] != typ[name] {
